@@ -248,6 +248,16 @@ pub fn sim_path(name: &str) -> std::path::PathBuf {
     std::path::PathBuf::from(format!("{SIM_PREFIX}{name}"))
 }
 
+/// A simulated path whose file name is arbitrary bytes (not necessarily UTF-8), and the key under
+/// which the simulated disk knows it.
+pub fn sim_path_bytes(name: &[u8]) -> (std::path::PathBuf, String) {
+    use std::os::unix::ffi::OsStringExt;
+    let mut full = SIM_PREFIX.as_bytes().to_vec();
+    full.extend_from_slice(name);
+    let key = String::from_utf8_lossy(&full).into_owned();
+    (std::path::PathBuf::from(std::ffi::OsString::from_vec(full)), key)
+}
+
 // ---------------------------------------------------------------------------------------------
 // interposers
 // ---------------------------------------------------------------------------------------------
@@ -424,9 +434,27 @@ pub unsafe extern "C" fn close(fd: i32) -> i32 {
     libc::syscall(libc::SYS_close, fd) as i32
 }
 
+thread_local! {
+    /// Some(errno): writes of THIS thread to stdout / stderr fail (the process's log pipe lost its
+    /// reader, its log disk is full, its terminal went away)
+    static STDIO_BROKEN: std::cell::Cell<Option<i32>> = const { std::cell::Cell::new(None) };
+}
+pub static STDIO_WRITES_BY_CODE_UNDER_TEST: AtomicU64 = AtomicU64::new(0);
+
+pub fn break_stdio(errno: Option<i32>) {
+    let _ = STDIO_BROKEN.try_with(|c| c.set(errno));
+}
+
 #[no_mangle]
 pub unsafe extern "C" fn write(fd: i32, buf: *const libc::c_void, count: usize) -> isize {
     CALLS_WRITE.fetch_add(1, Ordering::Relaxed);
+    if fd == 1 || fd == 2 {
+        if let Ok(Some(e)) = STDIO_BROKEN.try_with(|c| c.get()) {
+            STDIO_WRITES_BY_CODE_UNDER_TEST.fetch_add(1, Ordering::Relaxed);
+            set_errno(e);
+            return -1;
+        }
+    }
     if !(fd >= 0 && (fd as usize) < MAX_FD && SIM_FD[fd as usize].load(Ordering::SeqCst)) {
         return libc::syscall(libc::SYS_write, fd, buf, count) as isize;
     }
